@@ -352,13 +352,13 @@ pub(crate) mod kani_verif {
     }
     // one buffer length per harness (a symbolic choice between lengths makes every slice bound symbolic and is what made the
     // *_word_* harnesses above expensive)
-    // @h name=c10_expand_nolevel_nomac props=C10,C11 tier=thorough kind=bounded cfg=w8 timeout=1200 funcs=hss_expand_aux_data note="level word 0x80000000, length 4 (MAC missing); symbolic seed" contract="a used buffer whose MAC field is missing is never accepted"
+    // @h name=c10_expand_nolevel_nomac props=C10,C11 tier=thorough kind=bounded cfg=w8 timeout=2400 funcs=hss_expand_aux_data note="level word 0x80000000, length 4 (MAC missing); symbolic seed" contract="a used buffer whose MAC field is missing is never accepted"
     expand_fixed_len_harness!(c10_expand_nolevel_nomac, 0x8000_0000u32, 4usize);
-    // @h name=c10_expand_nolevel_short props=C10,C11 tier=thorough kind=bounded cfg=w8 timeout=1200 funcs=hss_expand_aux_data note="level word 0x80000000, length 19 (MAC cut short by one byte); symbolic contents and seed" contract="a used buffer whose MAC field is cut short is never accepted"
+    // @h name=c10_expand_nolevel_short props=C10,C11 tier=extended kind=bounded cfg=w8 timeout=1200 funcs=hss_expand_aux_data note="level word 0x80000000, length 19 (MAC cut short by one byte); symbolic contents and seed" contract="a used buffer whose MAC field is cut short is never accepted"
     expand_fixed_len_harness!(c10_expand_nolevel_short, 0x8000_0000u32, 19usize);
-    // @h name=c10_expand_nolevel_full props=C10,C11 tier=thorough kind=bounded cfg=w8 timeout=1200 funcs=hss_expand_aux_data note="level word 0x80000000, length 20 (complete); symbolic contents and seed" contract="accepted iff the stored MAC equals HMAC(seed-derived key, header)"
+    // @h name=c10_expand_nolevel_full props=C10,C11 tier=extended kind=bounded cfg=w8 timeout=1200 funcs=hss_expand_aux_data note="level word 0x80000000, length 20 (complete); symbolic contents and seed" contract="accepted iff the stored MAC equals HMAC(seed-derived key, header)"
     expand_fixed_len_harness!(c10_expand_nolevel_full, 0x8000_0000u32, 20usize);
-    // @h name=c10_expand_nolevel_padded props=C10,C11 tier=thorough kind=bounded cfg=w8 timeout=1200 funcs=hss_expand_aux_data note="level word 0x80000000, length 21 (one byte of padding)" contract="a padded buffer is never accepted"
+    // @h name=c10_expand_nolevel_padded props=C10,C11 tier=extended kind=bounded cfg=w8 timeout=1200 funcs=hss_expand_aux_data note="level word 0x80000000, length 21 (one byte of padding)" contract="a padded buffer is never accepted"
     expand_fixed_len_harness!(c10_expand_nolevel_padded, 0x8000_0000u32, 21usize);
     // @h name=c10_expand_word_nolevel props=C10,C11 tier=extended kind=bounded cfg=w8 timeout=1200 funcs=hss_expand_aux_data note="level word 0x80000000 (no cached level), lengths 4, 19, 20, 21; symbolic contents and seed" contract="Some only for the complete layout whose MAC field equals compute_hmac(seed-derived key, header); cut, missing or padded MAC: None; no panic"
     expand_concrete_harness!(c10_expand_word_nolevel, 0x8000_0000u32, 4usize);
